@@ -26,6 +26,18 @@ CHECKS = {
    technique="clean close+reopen woven into fuzzed histories (model comparison after every reopen) + every enumerated crash image must open, open twice identically, and accept a probe commit that survives another reopen",
    text="Clean part: generated histories with close/reopen (also twice in a row and with a different format-compatible option set) after arbitrary flush/compaction shapes. Crash part: every enumerated crash image of the traced runs opens without error; a seeded subset also gets a probe commit (new key + overwrite of a recovered key), read back immediately and after another reopen.",
    note="Trusted: as C02 and C06. Crash points inside recovery itself are covered only through the probe reopen (recovery is not yet traced a second generation)."),
+ "C08": dict(level="exploration", engine="transaction-program monitor", ref="DESIGN.md 3/C08",
+   technique="runtime monitor: generated and (short) exhaustively enumerated transaction programs, every call's result compared with an overlay model; observer and fresh transactions check isolation",
+   text="All programs up to the stated length over a 10-operation alphabet (set/delete/soft delete/replace/set_at/get/scan/savepoint/rollback-to/commit) are enumerated on four stores; tens of thousands of seeded longer programs in all three modes, adversarial keys and values. Checked: read-your-writes, savepoint restore, rollback/drop invisibility, mode and closed rejections, committed result = surviving writes in issue order (with versioning also the version order).",
+   note="Trusted: overlay model in harness/src/props/c08.rs. Error kinds are not compared, only accept/reject."),
+ "C09": dict(level="exploration", engine="cursor-program enumerator over E1 layouts", ref="DESIGN.md 3/C09",
+   technique="bounded-exhaustive runtime monitor: all cursor programs up to length 5 (quick) / 6 (thorough) per (layout, reader, bound shape), every step compared with a cursor over the model's sorted list of live keys",
+   text="Layouts (versions and tombstones spread over write-set, memtables, L0 and deeper tables with 64-256 byte blocks) are sampled; on each, for an older read-only reader and a reader with pending sets/deletes and for 7 bound shapes (both, wide, lower-only, upper-only, unbounded, empty, inverted), ALL programs over {seek_first, seek_last, next, prev, seek(3 targets)} up to the bound are run, plus seeded programs up to length 40.",
+   note="Trusted: reference model; E1 executor for building layouts. Next/prev are only issued while the model cursor is valid (as the property states)."),
+ "C10": dict(level="exploration", engine="E1 (versioned battery, twin back-ends)", ref="DESIGN.md 3/C10",
+   technique="runtime differential monitor: get_at at every interesting timestamp and complete forward/backward history traversals with option variants vs a retained-version model, under fuzzed placement, both index back-ends, manual clock for finite retention",
+   text="Held on the generated timestamped histories x placement schedules x back-ends counted in the evidence, with readers held open across compactions. Two open known findings (finite retention: expired replace barrier; index clean-up of barrier entries) are reported as KNOWN-FINDING and masked in the finite-retention campaign only.",
+   note="Trusted: reference model incl. the stated tolerances (ties, finite-retention optional versions). Equal timestamps for two versions of one key are not generated (the property lets ties resolve either way). The crash clause is not yet covered here."),
 }
 order = ["C01","C02","C03","C04","C05","C06","C07","C08","C09","C10","C11","C12","C13","C14","C15","C16","C17","C18","C19"]
 checks=[]
@@ -48,7 +60,7 @@ m={"version":1,
  "setup_cmd":"cd /verif && gcc -O2 -shared -fPIC -o shim/iotrace.so shim/iotrace.c -ldl -lpthread && cd harness && CARGO_NET_OFFLINE=true cargo build --release --offline",
  "hooks":{"guard":"cargo feature `verif` of surrealkv (off by default)","enable":"the harness depends on surrealkv (path /repo) with features=[\"verif\"]; every check rebuilds it from the working tree","baseline_off_cmd":"cd /repo && cargo test --workspace --no-fail-fast --offline","source_commits":hook_commits,"add_only":True},
  "engines":[
-   {"name":"E1","path":"harness/src/e1.rs","serves_properties":["C01","C06","C07"],"kind_free_text":"placement-fuzzed differential monitor against a sequential reference model (single driver)"},
+   {"name":"E1","path":"harness/src/e1.rs","serves_properties":["C01","C06","C07","C09","C10"],"kind_free_text":"placement-fuzzed differential monitor against a sequential reference model (single driver)"},
    {"name":"E2","path":"harness/src/e2.rs, harness/src/trace.rs, shim/iotrace.c","serves_properties":["C02","C03","C07"],"kind_free_text":"LD_PRELOAD syscall recorder -> synthesised crash images (process / power loss) -> verifier subprocess pool running the real code"},
  ],
  "checks":checks,"not_applicable":na,
